@@ -25,6 +25,7 @@ REQUIRED = {
     "mon:sink.no-late-mutation-of-received-objects": 1000,
     "mon:stamp.filled-with-utc-now": 200,
     "mon:failfast.callback-count": 200,
+    "mon:queue.each-event-a-fresh-complete-dict": 500,
 }
 ASSUMPTIONS = [
     "fields beyond test_id / test_status are passed by keyword (positional pass-through of *args is "
@@ -61,8 +62,22 @@ def build(node, leaves, path, log):
         return testtools.CopyStreamResult([build(c, leaves, path, log) for c in node[1]])
     if kind == "tagger":
         p = path + [("tagger", frozenset(node[1]), frozenset(node[2]))]
-        return testtools.StreamTagger([build(c, leaves, p, log) for c in node[3]],
-                                      add=node[1] or None, discard=node[2] or None)
+        # "an iterable of tags": a list the caller keeps, one-shot iterators, or a scratch list the caller
+        # empties and refills (to build the next sibling) straight after constructing this tagger
+        mode = node[4] if len(node) > 4 else "list"
+        kids = [build(c, leaves, p, log) for c in node[3]]
+        add, discard = list(node[1]), list(node[2])
+        if mode == "iter":
+            return testtools.StreamTagger(kids, add=iter(add) if add else None,
+                                          discard=(t for t in discard) if discard else None)
+        if mode == "set":
+            add, discard = set(add), set(discard)
+        t = testtools.StreamTagger(kids, add=add or None, discard=discard or None)
+        if mode == "mutated":
+            del add[:], discard[:]
+            add.append("callers-next-tag")
+            discard.extend(node[1])
+        return t
     if kind == "stamp":
         return testtools.TimestampingStreamResult(build(node[1], leaves, path + [("stamp",)], log))
     raise ValueError(kind)
@@ -129,7 +144,24 @@ def x_tree(ctx, case):
     windows = []
     n_status = 0
     detail = lambda: {"tree": tree, "history": history}  # noqa: E731
+    drained = {i: [] for i, (kind, path, obj) in enumerate(leaves) if kind == "queue"}
+    seen_dicts = []
+
+    def drain():
+        # the documented consumer (ConcurrentStreamTestSuite.run) pops "event" off each dict it dequeues
+        for i in drained:
+            s, q = leaves[i][2]
+            while not q.empty():
+                d = q.get()
+                fresh = not any(d is o for o in seen_dicts)
+                seen_dicts.append(d)
+                name = d.pop("event", None) if isinstance(d, dict) else None
+                ctx.check(fresh and name is not None, "queue.each-event-a-fresh-complete-dict",
+                          lambda: {"leaf": i, "dequeued": repr(d), "fresh object": fresh, **detail()})
+                drained[i].append((name, d))
+
     for op in history:
+        drain()
         if op == "start":
             root.startTestRun()
             for i, (kind, path, obj) in enumerate(leaves):
@@ -218,9 +250,10 @@ def x_tree(ctx, case):
         elif kind == "queue":
             s, q = obj
             got = []
-            while not q.empty():
-                d = q.get()
-                name = d.pop("event")
+            drain()
+            for name, d in drained[i]:
+                if name is None:
+                    continue
                 if name == "status":
                     if d["test_tags"] is not None:
                         d["test_tags"] = frozenset(d["test_tags"])
@@ -248,6 +281,8 @@ def unary_wrappers(child):
     yield ["tagger", ["a"], [], [child]]
     yield ["tagger", [], ["x"], [child]]
     yield ["tagger", ["a", "b"], ["x", "a"], [child]]
+    yield ["tagger", ["a", "b"], ["x"], [child], "iter"]
+    yield ["tagger", ["a"], ["x"], [child], "mutated"]
     yield ["stamp", child]
 
 
@@ -289,7 +324,8 @@ def random_tree(rng, depth):
         return ["copy", kids()]
     if r < 0.75:
         pool = ["a", "b", "x", "y"]
-        return ["tagger", rng.sample(pool, rng.randint(0, 2)), rng.sample(pool, rng.randint(0, 2)), kids()]
+        return ["tagger", rng.sample(pool, rng.randint(0, 2)), rng.sample(pool, rng.randint(0, 2)), kids(),
+                rng.choice(["list", "set", "iter", "mutated"])]
     return ["stamp", random_tree(rng, depth - 1)]
 
 
